@@ -5,7 +5,9 @@
      ecdsa.sign_message key comp msg                    -> OK:r;s;hdr;v;lows
      ecdsa.sign_k       key comp k msg hash [kcomp]     -> OK:r;s;hdr;v;lows   (kcomp: compression marker of the nonce key)
      ecdsa.privkey_from_k key comp k kcomp msg hash pubcomp -> OK:<d> | OK:E   (sign_with_k, then private_key_from_signature_k)
-     ecdsa.verify_der   msg pub der hash                -> OK:v                (signature object without recovery info)
+     ecdsa.cross signer key comp msg hash rk aux verifier key2 comp2 msg2 hash2 -> OK:v   (every way a signature is produced x
+                        every verification entry point; accepted exactly for the same key, message and hash choice)
+     ecdsa.verify_der   msg pub der hash               -> OK:v                (signature object without recovery info)
      ecdsa.sign_digest  key comp digest                 -> OK:r;s;hdr;v;lows
      ecdsa.sign_random  key comp msg hash rk entropy    -> OK:v;lows;range;rec   (entropy: used by the model only)
      ecdsa.sign_verify  key comp msg hash rk key2 comp2 msg2 hash2 -> OK:v
